@@ -105,9 +105,9 @@ func DrawTypeExpr(t *rapid.T, label string, depth int) ast.Expr {
 
 // Instance is a concrete piece of code built from a pattern.
 type Instance struct {
-	Node    ast.Node             // PExpr: ast.Expr; PDecl: decl; PStmts: *ast.BlockStmt holding the run
-	Fillers map[ast.Node]bool    // nodes that came from fillers or elided runs (not skeleton)
-	Binding map[string]ast.Node  // hole -> filler used
+	Node    ast.Node            // PExpr: ast.Expr; PDecl: decl; PStmts: *ast.BlockStmt holding the run
+	Fillers map[ast.Node]bool   // nodes that came from fillers or elided runs (not skeleton)
+	Binding map[string]ast.Node // hole -> filler used
 	Note    string
 }
 
